@@ -230,11 +230,14 @@ def _run_cl(case):
         if isinstance(e, RuntimeError) and ("tape exhausted" in str(e) or "number of draws depends" in str(e)):
             return bad("number of normal draws depends on the drawn values: %s" % e,
                        finding_key="cl|SampledKLEnergy|draw-count-not-deterministic|" + cfg)
+        if napprox == 1 and isinstance(e, (ValueError, NotImplementedError)) and str(e):
+            return skip("napprox=1 rejected with an explanatory error")
         why = "napprox=%d" % napprox if napprox else cfg
+        dom = "field" if spec["field"] else "multi"
         return bad("SampledKLEnergy(%s, %s position) raised %r in %s" % (
             why, "Field" if spec["field"] else "MultiField", e, _where(e)),
-            finding_key="cl|SampledKLEnergy|raises|%s|%s|%s@%s" % (
-                "napprox=%d" % napprox if napprox else cfg, "field" if spec["field"] else "multi", type(e).__name__, _where(e)),
+            finding_key="cl|SampledKLEnergy|raises|%s|%s@%s" % (
+                "napprox=1" if napprox == 1 else ("napprox|" + dom if napprox else cfg + "|" + dom), type(e).__name__, _where(e)),
             detail=dict(model=spec["name"]))
     stats = dict(basis_runs=r["n"] + 3, excitation_dim=r["n"])
     det = dict(model=spec["name"], ndraw=r["n"], log=r["log"][:12])
